@@ -21,6 +21,7 @@ META = {
 def run(s):
     K.suite_workload(s)
     K.fixtures_workload(s)
+    K.recreate_cases(s)
     K.large_cases(s, 24 if s.tier == 'quick' else 600, 'both')
     K.pair_histories(s)
     q = s.tier == 'quick'
@@ -55,9 +56,45 @@ def run(s):
     K.item_grid(s, 4, pretties=(False,), kmax=2, full=False, inters=(False,), item_names=K.HOSTILE_NAMES_C)
     collection_reports(s, 60 if q else 3000)
     repeated_id_deletes(s)
+    under_error_filter(s)
     K.idless_cases(s)
     K.fuzz(s, 120 if q else 12000, K.kind_weights(1, 1, 0.3), steps=(5, 25),
            shape_weights=(0.6, 0.25, 0.12, 0.03), selfref=0.1, direct=0.3)
+
+
+def under_error_filter(s):
+    """The caller has turned warnings into errors: a message that (under an always filter) is applied with a
+    report about an element must not come back silently now - the report arrives as the exception. What the
+    running order holds afterwards is not judged here (DESIGN 9)."""
+    from .. import events as EV
+    idx = 0
+    S = ['A', 'B', 'C']
+    ro_txt = gen.grid_ro(S, 'before', pretty=False)
+    I = ['i0', 'i1', 'i2']
+    iro_txt = B.ro_doc('RO', 1, [gen.simple_story('A', 2, item_prefix='i'), gen.simple_story('B', 3, item_prefix='i')])
+    extra = [('roStorySend', dict(story_ref='zz-unk', body=[B.E('p', 'x')], fields=['BODY']), 1, (1,))]
+    for txt, cases in ((ro_txt, list(K.subset_cases(S, 'story', nmax=2)) + extra),
+                       (iro_txt, list(K.subset_cases(I, 'item', story_ref='B', nmax=2)))):
+        for kind, kw, nn, mask in cases:
+            idx += 1
+            if not s.mine(idx) or not any(mask):
+                continue
+            msg_txt = B.msg_doc(kind, 7, **kw)
+            _ro, err0, wl0 = s.add(s.load(txt), s.load(msg_txt))
+            EV.drain()
+            reports = [type(w.message).__name__ for w in wl0 if type(w.message).__name__ in
+                       ('StoryNotFoundWarning', 'ItemNotFoundWarning', 'DuplicateStoryWarning')]
+            if err0 is not None or not reports:
+                continue
+            _ro, err1, wl1 = s.add(s.load(txt), s.load(msg_txt), error_on=Warning)
+            EV.drain()
+            s.evaluations += 1
+            s.note_sig(('error-filter', kind, mask, type(err1).__name__ if err1 else 'returned'))
+            s.hist['cases_under_error_filter'] += 1
+            if err1 is None:
+                s.custom_violation('element-skipped-silently-under-an-error-filter',
+                                   {'kind': kind, 'mask': list(mask), 'reports_under_always_filter': reports},
+                                   {'type': 'error-filter', 'ro_txt': txt, 'msg_txt': msg_txt}, msg_kind=kind, status='error-filter')
 
 
 def repeated_id_deletes(s):
@@ -164,6 +201,14 @@ def replay(s, data):
     w = data['witness']
     if w.get('type') == 'collection-reports':
         return judge_collection_reports(s, w['docs'])
+    if w.get('type') == 'error-filter':
+        from .. import events as EV
+        _ro, err1, _wl = s.add(s.load(w['ro_txt']), s.load(w['msg_txt']), error_on=Warning)
+        EV.drain()
+        s.evaluations += 1
+        if err1 is None:
+            s.custom_violation('element-skipped-silently-under-an-error-filter', {}, w, status='error-filter')
+        return
     K.replay_transition(s, data)
 
 
@@ -172,6 +217,7 @@ def gates(agg, tier):
     for w in ('StoryNotFoundWarning', 'ItemNotFoundWarning', 'DuplicateStoryWarning'):
         K.need(agg, r, agg['hist'].get('warning:' + w, 0) > 0, 'warning category %s never observed' % w)
     K.need(agg, r, K.sig_has(agg, "'EAStoryDelete'", ", 3, 0)"), 'no 3-ID EAStoryDelete observed')
+    K.need(agg, r, agg['hist'].get('cases_under_error_filter', 0) > 0, 'no case was run under an error filter')
     K.need(agg, r, K.sig_has(agg, "'EAItemDelete'", ", 2, 0)"), 'no multi-ID EAItemDelete observed')
     K.need(agg, r, K.sig_has(agg, "'EAStoryMove'", ", 2, 0)"), 'no multi-ID EAStoryMove observed')
     K.need(agg, r, agg['hist'].get('outcome:warn', 0) > 0, 'no warn-and-continue outcome observed')
